@@ -30,6 +30,20 @@ def hier_designs(tier, seed):
         depth, use_ext, buses, names = spec
         counter = [0]
 
+        def redeclare(m, d):
+            # ports / internal nets declared AGAIN under their names after instances were connected to them (the
+            # connections keep the earlier objects; nets are identified by name)
+            if d not in names.get("redeclare-at", ()):
+                return
+            w = 2 if buses else 1
+            for what in names.get("redeclare", ()):
+                if what == "p":
+                    m.p = h.Port(width=w, desc="declared again")
+                elif what == "q":
+                    m.q = h.Inout(desc="declared again")
+                else:
+                    m.add(h.Signal(width=w, desc="declared again"), name=names.get("net", "n"))
+
         def level(d):
             counter[0] += 1
             m = h.Module(name=f"L{d}_{counter[0]}")
@@ -53,12 +67,14 @@ def hier_designs(tier, seed):
                     else:
                         m.add(ext(w)()(a=m.p, z=m.k), name="e1")
                         m.add(h.R(r=2)(p=m.k, n=m.q), name="r2")
+                redeclare(m, d)
                 return m
             child = level(d - 1)
             m.add(child(p=m.p, q=m.k), name=names.get("inst1", "u1"))
             m.add(child(p=net, q=m.q), name=names.get("inst2", "u2"))
             if w == 1:
                 m.add(h.R(r=3)(p=net, n=m.k), name="rr")
+            redeclare(m, d)
             if "dangling" in names and d == depth:
                 # a top-level port / signal that nothing connects to, named like the flattened internal net of a child
                 m.add(h.Port() if names.get("dangling-port") else h.Signal(), name=names["dangling"])
@@ -89,6 +105,14 @@ def hier_designs(tier, seed):
     specs.append((2, False, False, {"dangling": "u1:u1:n", "dangling-port": True}))
     specs.append((1, False, False, {"dangling": "u2:n"}))
     specs.append((1, False, False, {"unnamed": True}))
+    for at in ((0,), (1,), (0, 1), (2,)):
+        for what in (("p",), ("q",), ("n",), ("p", "q", "n")):
+            for buses in (False, True):
+                specs.append((2, buses, buses, {"redeclare-at": at, "redeclare": what}))
+    # path names of several hundred characters (deep hierarchy, long instance names): one net, one name
+    specs.append((3, False, False, {"inst1": "a" * 200, "inst2": "b" * 200}))
+    specs.append((3, True, True, {"inst1": "a" * 300, "inst2": "a" * 299 + "b"}))
+    specs.append((2, False, False, {"inst1": "u" * 600, "net": "n" * 300}))
     # a sub-module WITHOUT ports (its port map is empty), whose internal net names recur in the parent and in its twin
     def portless(depth):
         def b():
